@@ -31,6 +31,7 @@ class TCPServer:
         self.protocol: ProtocolWrapper
         self.send_lock = trio.Lock()
         self.idle_task = TrioSingleTask()
+        self._read_complete = False
         self.stream = stream
         self.state = state
 
@@ -74,6 +75,7 @@ class TCPServer:
                 await self.idle_task.restart(self._task_group, self._idle_timeout)
                 await self._read_data()
                 # The peer has gone, there is nothing to keep alive
+                self._read_complete = True
                 await self.idle_task.stop()
         except OSError:
             pass
@@ -97,7 +99,7 @@ class TCPServer:
             await self._close()
             await self.protocol.handle(Closed())
         elif isinstance(event, Updated):
-            if event.idle:
+            if event.idle and not self._read_complete:
                 await self.idle_task.restart(self._task_group, self._idle_timeout)
             else:
                 await self.idle_task.stop()
